@@ -370,9 +370,135 @@ theorem XTab.get_cons (xt : XTab) (name : String) (e : Option Nat) (nm : String)
   · have : (name == nm) = false := by simpa using fun e => h e.symm
     simp [h, this]
 
+/-! ### defs and the class hierarchy -/
+
+/-- `a` is an ancestor of the record `i`, with the fuel that `i` needs -/
+def SubFact (sm : SymMap) (a i : Nat) : Prop := SymMap.isSubclassOfGo sm a (i + 1) i = true
+
+theorem isSubclassOfGo_succ (sm : SymMap) (a fuel rid : Nat) :
+    SymMap.isSubclassOfGo sm a (fuel + 1) rid =
+      ((sm.record rid).parentList.contains a || (sm.record rid).parentList.any fun p => SymMap.isSubclassOfGo sm a fuel p) := by
+  conv => lhs; unfold SymMap.isSubclassOfGo
+
+theorem isSubclassOfGo_mono (sm : SymMap) (a : Nat) : ∀ (fuel fuel' rid : Nat), fuel ≤ fuel' →
+    SymMap.isSubclassOfGo sm a fuel rid = true → SymMap.isSubclassOfGo sm a fuel' rid = true := by
+  intro fuel
+  induction fuel with
+  | zero => intro fuel' rid _ h; simp [SymMap.isSubclassOfGo] at h
+  | succ n ih =>
+    intro fuel' rid hle h
+    obtain ⟨m, rfl⟩ : ∃ m, fuel' = m + 1 := ⟨fuel' - 1, by omega⟩
+    rw [isSubclassOfGo_succ] at h ⊢
+    simp only [Bool.or_eq_true, Array.any_eq_true'] at h ⊢
+    rcases h with h | ⟨p, hp, hh⟩
+    · exact Or.inl h
+    · exact Or.inr ⟨p, hp, ih m p (by omega) hh⟩
+
+/-- the walk only reads the parent lists of the records it reaches -/
+theorem isSubclassOfGo_agree (sm sm' : SymMap) (a B : Nat) (ho : OlderBelow sm B)
+    (hag : ∀ i, i < B → (sm'.record i).parentList = (sm.record i).parentList) : ∀ (fuel rid : Nat), rid < B →
+    SymMap.isSubclassOfGo sm' a fuel rid = SymMap.isSubclassOfGo sm a fuel rid := by
+  intro fuel
+  induction fuel with
+  | zero => intro rid _; rfl
+  | succ n ih =>
+    intro rid hr
+    rw [isSubclassOfGo_succ, isSubclassOfGo_succ, hag rid hr]
+    congr 1
+    rw [Bool.eq_iff_iff]
+    simp only [Array.any_eq_true']
+    constructor
+    · rintro ⟨p, hp, hh⟩
+      exact ⟨p, hp, by rw [← ih p (by have := ho rid hr p (Array.mem_toList_iff.2 hp); omega)]; exact hh⟩
+    · rintro ⟨p, hp, hh⟩
+      exact ⟨p, hp, by rw [ih p (by have := ho rid hr p (Array.mem_toList_iff.2 hp); omega)]; exact hh⟩
+
+theorem SubFact.isSubclassOf {sm : SymMap} {a i : Nat} (h : SubFact sm a i) (hi : i < sm.recordList.size) :
+    sm.isSubclassOf i a = true :=
+  isSubclassOfGo_mono sm a (i + 1) sm.fieldFuel i (by unfold SymMap.fieldFuel; omega) h
+
+/-- the record ids of the defs by name (`none`: shadowed), the ancestors of records by id, and the ancestors collected
+so far for the record whose body is being indexed -/
+structure DTabs where
+  defs : XTab := []
+  anc : List (Nat × List Nat) := []
+  own : List Nat := []
+
+def ancGet (l : List (Nat × List Nat)) (i : Nat) : Option (List Nat) := (l.find? fun e => e.1 == i).map (·.2)
+
+/-- the tables are right about the symbol map: the defs of `dt.defs` are registered under their names (ids up to `B`),
+the listed ancestors are ancestors (`SubFact`), and `dt.own` are ancestors of the record `B` itself -/
+structure DInv (dt : DTabs) (B : Nat) (sm : SymMap) : Prop where
+  names : ∀ name id, dt.defs.get name = some id → sm.nameToDef[name]? = some id ∧ id ≤ B ∧ (sm.record id).kind = .def_
+  ancs : ∀ i as, ancGet dt.anc i = some as → i < B ∧ ∀ a ∈ as, SubFact sm a i
+  own : ∀ a ∈ dt.own, SubFact sm a B
+
+theorem DInv.nil (B : Nat) (sm : SymMap) : DInv {} B sm :=
+  ⟨fun name id h => by simp [XTab.get] at h, fun i as h => by simp [ancGet] at h, fun a h => by cases h⟩
+
+/-- transport when the parent lists and kinds of the records up to `B` and the names of the table are kept -/
+theorem DInv.transport {dt : DTabs} {B : Nat} {sm sm' : SymMap} (h : DInv dt B sm) (ho : OlderBelow sm (B + 1))
+    (hpl : ∀ i, i < B + 1 → (sm'.record i).parentList = (sm.record i).parentList)
+    (hkind : ∀ i, i < B + 1 → (sm'.record i).kind = (sm.record i).kind)
+    (hnd : ∀ name id, dt.defs.get name = some id → sm'.nameToDef[name]? = sm.nameToDef[name]?) : DInv dt B sm' := by
+  refine ⟨fun name id hg => ?_, fun i as hg => ?_, fun a ha => ?_⟩
+  · obtain ⟨h1, h2, h3⟩ := h.names name id hg
+    exact ⟨by rw [hnd name id hg]; exact h1, h2, by rw [hkind id (by omega)]; exact h3⟩
+  · obtain ⟨h1, h2⟩ := h.ancs i as hg
+    refine ⟨h1, fun a ha => ?_⟩
+    unfold SubFact
+    rw [isSubclassOfGo_agree sm sm' a (B + 1) ho hpl (i + 1) i (by omega)]
+    exact h2 a ha
+  · unfold SubFact
+    rw [isSubclassOfGo_agree sm sm' a (B + 1) ho hpl (B + 1) B (by omega)]
+    exact h.own a ha
+
+/-- one more (last) parent `cid` of the record `B`: the old facts stay, and `cid` and its ancestors are ancestors now -/
+theorem DInv.push {dt : DTabs} {B : Nat} {sm sm' : SymMap} (h : DInv dt B sm) (ho : OlderBelow sm (B + 1))
+    (hpl : ∀ i, i < B → (sm'.record i).parentList = (sm.record i).parentList)
+    (hkind : ∀ i, i < B + 1 → (sm'.record i).kind = (sm.record i).kind)
+    (hnd : ∀ name id, dt.defs.get name = some id → sm'.nameToDef[name]? = sm.nameToDef[name]?)
+    (cid : Nat) (hcid : cid < B) (hB : (sm'.record B).parentList = (sm.record B).parentList.push cid)
+    (extra : List Nat) (hextra : ∀ a ∈ extra, a = cid ∨ SubFact sm a cid) :
+    DInv { dt with own := dt.own ++ extra } B sm' := by
+  have hoB : OlderBelow sm B := fun i hi => ho i (by omega)
+  have hagree : ∀ a fuel i, i < B → SymMap.isSubclassOfGo sm' a fuel i = SymMap.isSubclassOfGo sm a fuel i :=
+    fun a fuel i hi => isSubclassOfGo_agree sm sm' a B hoB hpl fuel i hi
+  refine ⟨fun name id hg => ?_, fun i as hg => ?_, fun a ha => ?_⟩
+  · obtain ⟨h1, h2, h3⟩ := h.names name id hg
+    exact ⟨by rw [hnd name id hg]; exact h1, h2, by rw [hkind id (by omega)]; exact h3⟩
+  · obtain ⟨h1, h2⟩ := h.ancs i as hg
+    refine ⟨h1, fun a ha => ?_⟩
+    unfold SubFact
+    rw [hagree a (i + 1) i h1]
+    exact h2 a ha
+  · unfold SubFact
+    rw [isSubclassOfGo_succ, hB]
+    simp only [Bool.or_eq_true, Array.any_eq_true']
+    rcases List.mem_append.1 ha with ha | ha
+    · have hold := h.own a ha
+      unfold SubFact at hold
+      rw [isSubclassOfGo_succ] at hold
+      simp only [Bool.or_eq_true, Array.any_eq_true'] at hold
+      rcases hold with hc | ⟨p, hp, hh⟩
+      · left
+        rw [Array.contains_iff_mem] at hc ⊢
+        exact Array.mem_push_of_mem _ hc
+      · right
+        have hpB : p < B := ho B (by omega) p (Array.mem_toList_iff.2 hp)
+        exact ⟨p, Array.mem_push_of_mem _ hp, by rw [hagree a B p hpB]; exact hh⟩
+    · rcases hextra a ha with rfl | hs
+      · left
+        rw [Array.contains_iff_mem]
+        exact Array.mem_push_self
+      · right
+        refine ⟨cid, Array.mem_push_self, ?_⟩
+        rw [hagree a B cid hcid]
+        exact isSubclassOfGo_mono sm a (cid + 1) B cid (by omega) hs
+
 /-! ### the invariant inside a record body -/
 
-structure PInv (cenv : CEnv) (N : Std.HashMap String Nat) (rid : Nat) (ps : Params) (bv gv : Env) (outer : List Scope) (xt : XTab) (env : Env) (c : IndexCtx) : Prop where
+structure PInv (cenv : CEnv) (N : Std.HashMap String Nat) (rid : Nat) (ps : Params) (bv gv : Env) (outer : List Scope) (xt : XTab) (dt : DTabs) (env : Env) (c : IndexCtx) : Prop where
   k : KInv cenv rid c.symbolMap
   top : ∃ sc, c.scopes.scopes = sc :: outer ∧ sc.kind = .record rid ∧ VarsOK c.symbolMap sc bv ∧
     OuterOK c.symbolMap outer gv
@@ -382,23 +508,30 @@ structure PInv (cenv : CEnv) (N : Std.HashMap String Nat) (rid : Nat) (ps : Para
   trace : c.fileTrace ≠ []
   ntc : c.symbolMap.nameToClass = N
   x : XInv xt rid c.symbolMap
+  d : DInv dt rid c.symbolMap
 
-theorem PInv.currentRecordId {cenv : CEnv} {N : Std.HashMap String Nat} {rid : Nat} {ps : Params} {bv gv : Env} {outer : List Scope} {xt : XTab} {env : Env} {c : IndexCtx} (h : PInv cenv N rid ps bv gv outer xt env c) :
+theorem PInv.currentRecordId {cenv : CEnv} {N : Std.HashMap String Nat} {rid : Nat} {ps : Params} {bv gv : Env} {outer : List Scope} {xt : XTab} {dt : DTabs} {env : Env} {c : IndexCtx} (h : PInv cenv N rid ps bv gv outer xt dt env c) :
     c.scopes.currentRecordId = some rid := by
   obtain ⟨sc, hs, hk, _⟩ := h.top
   unfold Scopes.currentRecordId
   rw [hs]
   simp [Scope.recordId, hk]
 
-theorem PInv.find {cenv : CEnv} {N : Std.HashMap String Nat} {rid : Nat} {ps : Params} {bv gv : Env} {outer : List Scope} {xt : XTab} {env : Env} {c : IndexCtx} (h : PInv cenv N rid ps bv gv outer xt env c) (name : String) :
+theorem PInv.find {cenv : CEnv} {N : Std.HashMap String Nat} {rid : Nat} {ps : Params} {bv gv : Env} {outer : List Scope} {xt : XTab} {dt : DTabs} {env : Env} {c : IndexCtx} (h : PInv cenv N rid ps bv gv outer xt dt env c) (name : String) :
     c.symbolMap.recordFindField rid name = ff c.symbolMap name rid :=
   recordFindField_eq_ff _ _ h.k.older rid (by have := h.newest; omega)
 
+theorem PInv.older1 {cenv : CEnv} {N : Std.HashMap String Nat} {rid : Nat} {ps : Params} {bv gv : Env} {outer : List Scope} {xt : XTab} {dt : DTabs} {env : Env} {c : IndexCtx} (h : PInv cenv N rid ps bv gv outer xt dt env c) :
+    OlderBelow c.symbolMap (rid + 1) := by
+  have := h.k.older
+  rw [← h.newest] at this
+  exact this
+
 /-- declaring the field `name : ty` of the record (a new field entry, registered in the record's own map) -/
-theorem PInv.declare {cenv : CEnv} {N : Std.HashMap String Nat} {rid : Nat} {ps : Params} {bv gv : Env} {outer : List Scope} {xt : XTab} {env env' : Env} {c : IndexCtx} (h : PInv cenv N rid ps bv gv outer xt env c)
+theorem PInv.declare {cenv : CEnv} {N : Std.HashMap String Nat} {rid : Nat} {ps : Params} {bv gv : Env} {outer : List Scope} {xt : XTab} {dt : DTabs} {env env' : Env} {c : IndexCtx} (h : PInv cenv N rid ps bv gv outer xt dt env c)
     (name : String) (ty : Ty) (hty : isCoreTy ty = true) (loc : FileRange)
     (henv : ∀ n, env'.get n = if n = name then some ty else env.get n) :
-    PInv cenv N rid ps bv gv outer xt env' (withField c rid ⟨name, ty, rid, loc⟩) := by
+    PInv cenv N rid ps bv gv outer xt dt env' (withField c rid ⟨name, ty, rid, loc⟩) := by
   have hrid : rid < c.symbolMap.recordList.size := by have := h.newest; omega
   have hrl : (withField c rid ⟨name, ty, rid, loc⟩).symbolMap.recordList =
       c.symbolMap.recordList.modify rid fun rec =>
@@ -431,7 +564,9 @@ theorem PInv.declare {cenv : CEnv} {N : Std.HashMap String Nat} {rid : Nat} {ps 
     split at hp
     · exact h.k.older i hi p hp
     · exact h.k.older i hi p hp
-  refine ⟨?_, h.top, by rw [hsize]; exact h.newest, ?_, ?_, h.trace, h.ntc, h.x⟩
+  refine ⟨?_, h.top, by rw [hsize]; exact h.newest, ?_, ?_, h.trace, h.ntc, h.x,
+    h.d.transport h.older1 (fun i hi => by rw [hrec i (by omega)]; split <;> rfl)
+      (fun i hi => by rw [hrec i (by omega)]; split <;> rfl) (fun _ _ _ => rfl)⟩
   · exact h.k.transport (Nat.le_of_eq hsize.symm) hold hag (by rw [hfl]; simp) hfld (Nat.le_refl _) (fun _ _ => rfl)
       (fun _ _ _ => rfl)
   · intro n
@@ -467,16 +602,17 @@ theorem PInv.declare {cenv : CEnv} {N : Std.HashMap String Nat} {rid : Nat} {ps 
         exact ⟨hp, fid, h1, by rw [hfl]; simp; omega, by rw [hfld fid h2]; exact h3⟩
   · exact h.tas.transport (by rw [hrec rid hrid, if_pos rfl]) (Nat.le_refl _) (fun _ _ => rfl)
 
-theorem PInv.addReference {cenv : CEnv} {N : Std.HashMap String Nat} {rid : Nat} {ps : Params} {bv gv : Env} {outer : List Scope} {xt : XTab} {env : Env} {c : IndexCtx} (h : PInv cenv N rid ps bv gv outer xt env c)
-    (s : SymbolId) (loc : FileRange) : PInv cenv N rid ps bv gv outer xt env (c.setSM (c.symbolMap.addReference s loc)) :=
+theorem PInv.addReference {cenv : CEnv} {N : Std.HashMap String Nat} {rid : Nat} {ps : Params} {bv gv : Env} {outer : List Scope} {xt : XTab} {dt : DTabs} {env : Env} {c : IndexCtx} (h : PInv cenv N rid ps bv gv outer xt dt env c)
+    (s : SymbolId) (loc : FileRange) : PInv cenv N rid ps bv gv outer xt dt env (c.setSM (c.symbolMap.addReference s loc)) :=
   ⟨h.k.transport (Nat.le_refl _) h.k.older (fun _ _ => rfl) (Nat.le_refl _) (fun _ _ => rfl) (Nat.le_refl _)
       (fun _ _ => rfl) (fun _ _ _ => rfl),
     h.top, h.newest,
     h.exact.transport (rid + 1) (Nat.lt_succ_self _) (fun i hi => h.k.older i (by have := h.newest; omega)) (fun _ _ => rfl) (Nat.le_refl _) (fun _ _ => rfl),
-    h.tas.transport rfl (Nat.le_refl _) (fun _ _ => rfl), h.trace, h.ntc, h.x⟩
+    h.tas.transport rfl (Nat.le_refl _) (fun _ _ => rfl), h.trace, h.ntc, h.x,
+    h.d.transport h.older1 (fun _ _ => rfl) (fun _ _ => rfl) (fun _ _ _ => rfl)⟩
 
-theorem PInv.findLocal {cenv : CEnv} {N : Std.HashMap String Nat} {rid : Nat} {ps : Params} {bv gv : Env} {outer : List Scope} {xt : XTab} {env : Env} {c : IndexCtx}
-    (h : PInv cenv N rid ps bv gv outer xt env c) (name : String) (t : Ty) (hb : bv.get name = none) (hg : env.get name = some t) :
+theorem PInv.findLocal {cenv : CEnv} {N : Std.HashMap String Nat} {rid : Nat} {ps : Params} {bv gv : Env} {outer : List Scope} {xt : XTab} {dt : DTabs} {env : Env} {c : IndexCtx}
+    (h : PInv cenv N rid ps bv gv outer xt dt env c) (name : String) (t : Ty) (hb : bv.get name = none) (hg : env.get name = some t) :
     isCoreTy t = true ∧ ∃ fid, c.symbolMap.recordFindField rid name = some fid ∧
       c.scopes.findLocal c.symbolMap name = some (.recordField fid) ∧ (c.symbolMap.recordField fid).typ = t := by
   obtain ⟨sc, hs, hk, hv0, _⟩ := h.top
@@ -495,8 +631,8 @@ theorem PInv.findLocal {cenv : CEnv} {N : Std.HashMap String Nat} {rid : Nat} {p
   simp only [h1, Scope.recordId, hk, hf]
 
 /-- a field in scope, as `find_field` sees it (the target of a `let`) -/
-theorem PInv.fieldOf {cenv : CEnv} {N : Std.HashMap String Nat} {rid : Nat} {ps : Params} {bv gv : Env} {outer : List Scope} {xt : XTab} {env : Env} {c : IndexCtx}
-    (h : PInv cenv N rid ps bv gv outer xt env c) (name : String) (t : Ty) (hg : env.get name = some t) :
+theorem PInv.fieldOf {cenv : CEnv} {N : Std.HashMap String Nat} {rid : Nat} {ps : Params} {bv gv : Env} {outer : List Scope} {xt : XTab} {dt : DTabs} {env : Env} {c : IndexCtx}
+    (h : PInv cenv N rid ps bv gv outer xt dt env c) (name : String) (t : Ty) (hg : env.get name = some t) :
     isCoreTy t = true ∧ ∃ fid, c.symbolMap.recordFindField rid name = some fid ∧ (c.symbolMap.recordField fid).typ = t := by
   have := h.exact name
   rw [hg] at this
@@ -547,8 +683,8 @@ theorem ta_lookup (info : Nat → String × Ty × Bool) (l : List (String × Nat
         exact j1
 
 /-- an identifier that is no field in scope and names a template parameter of the record -/
-theorem PInv.findLocalTA {cenv : CEnv} {N : Std.HashMap String Nat} {rid : Nat} {ps : Params} {bv gv : Env} {outer : List Scope} {xt : XTab} {env : Env} {c : IndexCtx}
-    (h : PInv cenv N rid ps bv gv outer xt env c) (name : String) (t : Ty) (hb : bv.get name = none) (hn : env.get name = none)
+theorem PInv.findLocalTA {cenv : CEnv} {N : Std.HashMap String Nat} {rid : Nat} {ps : Params} {bv gv : Env} {outer : List Scope} {xt : XTab} {dt : DTabs} {env : Env} {c : IndexCtx}
+    (h : PInv cenv N rid ps bv gv outer xt dt env c) (name : String) (t : Ty) (hb : bv.get name = none) (hn : env.get name = none)
     (hg : ps.env.get name = some t) :
     isCoreTy t = true ∧ ∃ tid, c.scopes.findLocal c.symbolMap name = some (.templateArgument tid) ∧
       (c.symbolMap.templateArg tid).typ = t := by
@@ -590,8 +726,8 @@ theorem var_typ_of_getElem? (sm : SymMap) (vid : Nat) (v : Variable) (h : sm.var
   simp [getElem!_def, h]
 
 /-- a variable of the record body (`defvar` in the body) -/
-theorem PInv.findLocalVar {cenv : CEnv} {N : Std.HashMap String Nat} {rid : Nat} {ps : Params} {bv gv : Env} {outer : List Scope} {xt : XTab} {env : Env}
-    {c : IndexCtx} (h : PInv cenv N rid ps bv gv outer xt env c) (name : String) (t : Ty) (hb : bv.get name = some t) :
+theorem PInv.findLocalVar {cenv : CEnv} {N : Std.HashMap String Nat} {rid : Nat} {ps : Params} {bv gv : Env} {outer : List Scope} {xt : XTab} {dt : DTabs} {env : Env}
+    {c : IndexCtx} (h : PInv cenv N rid ps bv gv outer xt dt env c) (name : String) (t : Ty) (hb : bv.get name = some t) :
     isCoreTy t = true ∧ ∃ vid, c.scopes.findLocal c.symbolMap name = some (.var vid) ∧ (c.symbolMap.var vid).typ = t := by
   obtain ⟨sc, hs, hk, hv0, _⟩ := h.top
   have := hv0 name
@@ -606,8 +742,8 @@ theorem PInv.findLocalVar {cenv : CEnv} {N : Std.HashMap String Nat} {rid : Nat}
   rw [this]
 
 /-- a name that nothing in the record scope answers: a variable of the outer scopes (top-level `defvar`) -/
-theorem PInv.findLocalOuter {cenv : CEnv} {N : Std.HashMap String Nat} {rid : Nat} {ps : Params} {bv gv : Env} {outer : List Scope} {xt : XTab} {env : Env}
-    {c : IndexCtx} (h : PInv cenv N rid ps bv gv outer xt env c) (name : String) (t : Ty) (hb : bv.get name = none)
+theorem PInv.findLocalOuter {cenv : CEnv} {N : Std.HashMap String Nat} {rid : Nat} {ps : Params} {bv gv : Env} {outer : List Scope} {xt : XTab} {dt : DTabs} {env : Env}
+    {c : IndexCtx} (h : PInv cenv N rid ps bv gv outer xt dt env c) (name : String) (t : Ty) (hb : bv.get name = none)
     (hn : env.get name = none) (hp : ps.env.get name = none) (hg : gv.get name = some t) :
     isCoreTy t = true ∧ ∃ vid, c.scopes.findLocal c.symbolMap name = some (.var vid) ∧ (c.symbolMap.var vid).typ = t := by
   obtain ⟨sc, hs, hk, hv0, ho⟩ := h.top
@@ -650,9 +786,9 @@ def withParent (c : IndexCtx) (rid cid : Nat) : IndexCtx :=
   c.setSM (c.symbolMap.modRecord rid fun rec => { rec with parentList := rec.parentList.push cid })
 
 /-- a new (last) parent `cid`, a class with exactly the fields `flds`: the fields in scope are `env ++ flds` -/
-theorem PInv.pushParent {cenv : CEnv} {N : Std.HashMap String Nat} {rid : Nat} {ps : Params} {bv gv : Env} {outer : List Scope} {xt : XTab} {env : Env} {c : IndexCtx}
-    (h : PInv cenv N rid ps bv gv outer xt env c) (cid : Nat) (hcid : cid < rid) (flds : Env) (hex : Exact c.symbolMap cid flds) :
-    PInv cenv N rid ps bv gv outer xt (env ++ flds) (withParent c rid cid) := by
+theorem PInv.pushParent {cenv : CEnv} {N : Std.HashMap String Nat} {rid : Nat} {ps : Params} {bv gv : Env} {outer : List Scope} {xt : XTab} {dt : DTabs} {env : Env} {c : IndexCtx}
+    (h : PInv cenv N rid ps bv gv outer xt dt env c) (cid : Nat) (hcid : cid < rid) (flds : Env) (hex : Exact c.symbolMap cid flds) :
+    PInv cenv N rid ps bv gv outer xt dt (env ++ flds) (withParent c rid cid) := by
   have hrid : rid < c.symbolMap.recordList.size := by have := h.newest; omega
   have hrec : ∀ i, i < c.symbolMap.recordList.size →
       (withParent c rid cid).symbolMap.record i =
@@ -702,7 +838,13 @@ theorem PInv.pushParent {cenv : CEnv} {N : Std.HashMap String Nat} {rid : Nat} {
       cases (c.symbolMap.record rid).parentList.toList.findSome? (ff c.symbolMap name) with
       | some f => rfl
       | none => cases ff c.symbolMap name cid <;> rfl
-  refine ⟨?_, h.top, by rw [hsize]; exact h.newest, ?_, ?_, h.trace, h.ntc, h.x⟩
+  have hd : DInv dt rid (withParent c rid cid).symbolMap := by
+    have := h.d.push (sm' := (withParent c rid cid).symbolMap) h.older1 (fun i hi => by rw [hag i hi])
+      (fun i hi => by rw [hrec i (by omega)]; split <;> rfl)
+      (fun _ _ _ => rfl) cid hcid (by rw [hrec rid hrid, if_pos rfl]) [] (fun a ha => by cases ha)
+    simp only [List.append_nil] at this
+    exact this
+  refine ⟨?_, h.top, by rw [hsize]; exact h.newest, ?_, ?_, h.trace, h.ntc, h.x, hd⟩
   · exact h.k.transport (Nat.le_of_eq hsize.symm) hold hag (Nat.le_refl _) (fun _ _ => rfl) (Nat.le_refl _)
       (fun _ _ => rfl) (fun _ _ _ => rfl)
   · intro name
@@ -760,10 +902,10 @@ def coreParents3 (cenv : CEnv) : Env → List PTree → Option Env
 section core3
 variable (k : Nat)
 
-theorem parents3_step (cenv : CEnv) (N : Std.HashMap String Nat) (pcl : PTree) (rid : Nat) (ps : Params) (bv gv : Env) (outer : List Scope) (xt : XTab) (env env' : Env) (c c' : IndexCtx)
-    (hinv : PInv cenv N rid ps bv gv outer xt env c) (hchk : coreParents3 cenv env (Ast.parentClassListClasses pcl) = some env')
+theorem parents3_step (cenv : CEnv) (N : Std.HashMap String Nat) (pcl : PTree) (rid : Nat) (ps : Params) (bv gv : Env) (outer : List Scope) (xt : XTab) (dt : DTabs) (env env' : Env) (c c' : IndexCtx)
+    (hinv : PInv cenv N rid ps bv gv outer xt dt env c) (hchk : coreParents3 cenv env (Ast.parentClassListClasses pcl) = some env')
     (hrun : (indexParentClassList (mkRec (k + 1)) pcl).run c = .ok ((), c')) :
-    c'.diagnostics = c.diagnostics ∧ PInv cenv N rid ps bv gv outer xt env' c' := by
+    c'.diagnostics = c.diagnostics ∧ PInv cenv N rid ps bv gv outer xt dt env' c' := by
   unfold indexParentClassList at hrun
   obtain ⟨r0, c0, h0, hrun1⟩ := IxM.run_bind_ok hrun
   rw [currentRecordId_run, hinv.currentRecordId] at h0
@@ -832,10 +974,10 @@ theorem parents3_step (cenv : CEnv) (N : Std.HashMap String Nat) (pcl : PTree) (
       exact ⟨q, hi⟩
 
 /-- the value of an accepted initialiser: its type can be cast to `ty`, nothing is reported -/
-theorem init3_value (cenv : CEnv) (N : Std.HashMap String Nat) (rid : Nat) (ps : Params) (bv gv : Env) (outer : List Scope) (xt : XTab) (env : Env) (ty : Ty) (v : PTree) (c : IndexCtx)
-    (hinv : PInv cenv N rid ps bv gv outer xt env c) (hci : coreInit2 (bv ++ (env ++ (ps.env ++ gv))) ty v = true) :
+theorem init3_value (cenv : CEnv) (N : Std.HashMap String Nat) (rid : Nat) (ps : Params) (bv gv : Env) (outer : List Scope) (xt : XTab) (dt : DTabs) (env : Env) (ty : Ty) (v : PTree) (c : IndexCtx)
+    (hinv : PInv cenv N rid ps bv gv outer xt dt env c) (hci : coreInit2 (bv ++ (env ++ (ps.env ++ gv))) ty v = true) :
     ∃ vt c1, ((mkRec (k + 1)).value v).run c = .ok (some vt, c1) ∧ (∀ sm : SymMap, sm.canBeCastedTo vt ty = true) ∧
-      c1.diagnostics = c.diagnostics ∧ PInv cenv N rid ps bv gv outer xt env c1 := by
+      c1.diagnostics = c.diagnostics ∧ PInv cenv N rid ps bv gv outer xt dt env c1 := by
   obtain ⟨f, rest, hft⟩ : ∃ f rest, c.fileTrace = f :: rest := by
     cases hc : c.fileTrace with
     | nil => exact absurd hc hinv.trace
@@ -989,12 +1131,12 @@ theorem coreInitL_false (scope : Env) (ty : Ty) (v : PTree) : coreInitL false sc
   simp [coreInitL]
 
 theorem initL_value (lists : Bool) (hk : lists = true → 0 < k) (cenv : CEnv) (N : Std.HashMap String Nat) (rid : Nat)
-    (ps : Params) (bv gv : Env) (outer : List Scope) (xt : XTab) (env : Env) (ty : Ty) (v : PTree) (c : IndexCtx)
-    (hinv : PInv cenv N rid ps bv gv outer xt env c) (hci : coreInitL lists (bv ++ (env ++ (ps.env ++ gv))) ty v = true) :
+    (ps : Params) (bv gv : Env) (outer : List Scope) (xt : XTab) (dt : DTabs) (env : Env) (ty : Ty) (v : PTree) (c : IndexCtx)
+    (hinv : PInv cenv N rid ps bv gv outer xt dt env c) (hci : coreInitL lists (bv ++ (env ++ (ps.env ++ gv))) ty v = true) :
     ∃ vt c1, ((mkRec (k + 1)).value v).run c = .ok (some vt, c1) ∧ (∀ sm : SymMap, sm.canBeCastedTo vt ty = true) ∧
-      c1.diagnostics = c.diagnostics ∧ PInv cenv N rid ps bv gv outer xt env c1 := by
+      c1.diagnostics = c.diagnostics ∧ PInv cenv N rid ps bv gv outer xt dt env c1 := by
   by_cases h2 : coreInit2 (bv ++ (env ++ (ps.env ++ gv))) ty v = true
-  · exact init3_value k cenv N rid ps bv gv outer xt env ty v c hinv h2
+  · exact init3_value k cenv N rid ps bv gv outer xt dt env ty v c hinv h2
   · unfold coreInitL at hci
     simp only [h2, Bool.false_or, Bool.and_eq_true] at hci
     obtain ⟨hl, hci⟩ := hci
@@ -1011,6 +1153,22 @@ theorem initL_value (lists : Bool) (hk : lists = true → 0 < k) (cenv : CEnv) (
       obtain ⟨et, rfl, het⟩ := listLitType_core v lt hlt
       refine ⟨.list et, c, ?_, fun sm => coreCast_sound sm _ ty het hci, rfl, hinv⟩
       exact indexValue_listLit (mkRec (k' + 1)) (fun e lt c h => indexValue_lit (mkRec k') e lt h c) v _ hlt c f rest hft
+
+/-- what the step lemmas need of an additional initialiser check `initX`: the value is indexed to a type that can be cast
+to the field type in the symbol map of the state it leaves, nothing is reported, the invariant is kept -/
+def InitOracle (k : Nat) (initX : Env → Ty → PTree → Bool) (cenv : CEnv) (N : Std.HashMap String Nat) (rid : Nat) (ps : Params)
+    (gv : Env) (outer : List Scope) (xt : XTab) (dt : DTabs) : Prop :=
+  ∀ (ty : Ty) (v : PTree) (bv env : Env) (c : IndexCtx), PInv cenv N rid ps bv gv outer xt dt env c →
+    initX (bv ++ (env ++ (ps.env ++ gv))) ty v = true →
+    ∃ vt c1, ((mkRec (k + 1)).value v).run c = .ok (some vt, c1) ∧ c1.symbolMap.canBeCastedTo vt ty = true ∧
+      c1.diagnostics = c.diagnostics ∧ PInv cenv N rid ps bv gv outer xt dt env c1
+
+/-- no additional initialisers -/
+def noInitX : Env → Ty → PTree → Bool := fun _ _ _ => false
+
+theorem noInitX_oracle (k : Nat) (cenv : CEnv) (N : Std.HashMap String Nat) (rid : Nat) (ps : Params) (gv : Env)
+    (outer : List Scope) (xt : XTab) (dt : DTabs) : InitOracle k noInitX cenv N rid ps gv outer xt dt :=
+  fun _ _ _ _ _ _ h => by cases h
 
 /-- `let f [{ranges}] = init;`: `f` a field in scope (`env`), `init` may also name one of the parameters `pe` -/
 def coreFieldLet3 (env pe : Env) (n : PTree) : Bool :=
@@ -1029,7 +1187,7 @@ def coreFieldLet3 (env pe : Env) (n : PTree) : Bool :=
   | none => false
 
 /-- the same with variables in front of the fields (`front`: the `defvar`s of the body) -/
-def coreFieldLetG (lists : Bool) (front env back : Env) (n : PTree) : Bool :=
+def coreFieldLetG (lists : Bool) (initX : Env → Ty → PTree → Bool) (front env back : Env) (n : PTree) : Bool :=
   match Ast.fieldLetName n with
   | some nameNode =>
     match Ast.identifierValue nameNode, Ast.identifierRange nameNode with
@@ -1039,20 +1197,22 @@ def coreFieldLetG (lists : Bool) (front env back : Env) (n : PTree) : Bool :=
         match Ast.fieldLetValue n with
         | none => true
         | some v =>
-          coreInitL lists (front ++ (env ++ back)) (match Ast.fieldLetRangeList n with | some rl => rangeTyp (some rl) | none => t) v
+          coreInitL lists (front ++ (env ++ back)) (match Ast.fieldLetRangeList n with | some rl => rangeTyp (some rl) | none => t) v ||
+            initX (front ++ (env ++ back)) (match Ast.fieldLetRangeList n with | some rl => rangeTyp (some rl) | none => t) v
       | none => false
     | _, _ => false
   | none => false
 
-theorem coreFieldLet3_eq (env pe : Env) (n : PTree) : coreFieldLet3 env pe n = coreFieldLetG false [] env pe n := by
-  unfold coreFieldLet3 coreFieldLetG
-  simp only [coreInitL_false]
+theorem coreFieldLet3_eq (env pe : Env) (n : PTree) : coreFieldLet3 env pe n = coreFieldLetG false noInitX [] env pe n := by
+  unfold coreFieldLet3 coreFieldLetG noInitX
+  simp only [coreInitL_false, Bool.or_false]
   rfl
 
-theorem fieldLetG_step (lists : Bool) (hk : lists = true → 0 < k) (cenv : CEnv) (N : Std.HashMap String Nat) (n : PTree) (rid : Nat) (ps : Params) (bv gv : Env) (outer : List Scope) (xt : XTab) (env : Env) (c c' : IndexCtx)
-    (hinv : PInv cenv N rid ps bv gv outer xt env c) (hchk : coreFieldLetG lists bv env (ps.env ++ gv) n = true)
+theorem fieldLetG_step (lists : Bool) (hk : lists = true → 0 < k) (initX : Env → Ty → PTree → Bool) (cenv : CEnv) (N : Std.HashMap String Nat) (n : PTree) (rid : Nat) (ps : Params) (bv gv : Env) (outer : List Scope) (xt : XTab) (dt : DTabs) (env : Env) (c c' : IndexCtx)
+    (hinv : PInv cenv N rid ps bv gv outer xt dt env c) (hX : InitOracle k initX cenv N rid ps gv outer xt dt)
+    (hchk : coreFieldLetG lists initX bv env (ps.env ++ gv) n = true)
     (hrun : (indexFieldLet (mkRec (k + 1)) n).run c = .ok ((), c')) :
-    c'.diagnostics = c.diagnostics ∧ PInv cenv N rid ps bv gv outer xt env c' := by
+    c'.diagnostics = c.diagnostics ∧ PInv cenv N rid ps bv gv outer xt dt env c' := by
   obtain ⟨f, rest, hft⟩ : ∃ f rest, c.fileTrace = f :: rest := by
     cases hc : c.fileTrace with
     | nil => exact absurd hc hinv.trace
@@ -1100,7 +1260,12 @@ theorem fieldLetG_step (lists : Bool) (hk : lists = true → 0 < k) (cenv : CEnv
       | some v =>
         rw [hv] at hrun hchk
         simp only at hrun hchk
-        obtain ⟨vt, c1, hvr, hcast, hd, hi⟩ := initL_value k lists hk cenv N rid ps bv gv outer xt env _ v _ hinv3 hchk
+        obtain ⟨vt, c1, hvr, hcast, hd, hi⟩ : ∃ vt c1, ((mkRec (k + 1)).value v).run _ = .ok (some vt, c1) ∧
+            c1.symbolMap.canBeCastedTo vt _ = true ∧ c1.diagnostics = _ ∧ PInv cenv N rid ps bv gv outer xt dt env c1 := by
+          rcases Bool.or_eq_true_iff.1 hchk with h1 | h2
+          · obtain ⟨vt, c1, a1, a2, a3, a4⟩ := initL_value k lists hk cenv N rid ps bv gv outer xt dt env _ v _ hinv3 h1
+            exact ⟨vt, c1, a1, a2 _, a3, a4⟩
+          · exact hX _ v bv env _ hinv3 h2
         simp only [StateT.run_bind, hvr, Except.ok_bind, canBeCastedTo_run, hcast, Bool.not_true, Bool.false_eq_true,
           if_false] at hrun
         cases hrun
@@ -1112,7 +1277,12 @@ theorem fieldLetG_step (lists : Bool) (hk : lists = true → 0 < k) (cenv : CEnv
       | some v =>
         rw [hv] at hrun hchk
         simp only at hrun hchk
-        obtain ⟨vt, c1, hvr, hcast, hd, hi⟩ := initL_value k lists hk cenv N rid ps bv gv outer xt env _ v _ hinv3 hchk
+        obtain ⟨vt, c1, hvr, hcast, hd, hi⟩ : ∃ vt c1, ((mkRec (k + 1)).value v).run _ = .ok (some vt, c1) ∧
+            c1.symbolMap.canBeCastedTo vt _ = true ∧ c1.diagnostics = _ ∧ PInv cenv N rid ps bv gv outer xt dt env c1 := by
+          rcases Bool.or_eq_true_iff.1 hchk with h1 | h2
+          · obtain ⟨vt, c1, a1, a2, a3, a4⟩ := initL_value k lists hk cenv N rid ps bv gv outer xt dt env _ v _ hinv3 h1
+            exact ⟨vt, c1, a1, a2 _, a3, a4⟩
+          · exact hX _ v bv env _ hinv3 h2
         simp only [StateT.run_bind, hvr, Except.ok_bind, canBeCastedTo_run, hcast, Bool.not_true, Bool.false_eq_true,
           if_false] at hrun
         cases hrun
@@ -1139,7 +1309,7 @@ def coreFieldDef3 (env pe : Env) (n : PTree) : Option Env :=
   | _, _ => none
 
 /-- the same with variables in front of the fields -/
-def coreFieldDefG (tyOf : PTree → Option Ty) (lists : Bool) (front env back : Env) (n : PTree) : Option Env :=
+def coreFieldDefG (tyOf : PTree → Option Ty) (lists : Bool) (initX : Env → Ty → PTree → Bool) (front env back : Env) (n : PTree) : Option Env :=
   match Ast.fieldDefName n, Ast.fieldDefType n with
   | some nameNode, some tn =>
     match Ast.identifierValue nameNode, Ast.identifierRange nameNode with
@@ -1148,14 +1318,16 @@ def coreFieldDefG (tyOf : PTree → Option Ty) (lists : Bool) (front env back : 
       | some ty =>
         match Ast.fieldDefValue n with
         | none => some ((name, ty) :: env)
-        | some v => if coreInitL lists (front ++ (((name, ty) :: env) ++ back)) ty v then some ((name, ty) :: env) else none
+        | some v =>
+          if coreInitL lists (front ++ (((name, ty) :: env) ++ back)) ty v ||
+              initX (front ++ (((name, ty) :: env) ++ back)) ty v then some ((name, ty) :: env) else none
       | none => none
     | _, _ => none
   | _, _ => none
 
-theorem coreFieldDef3_eq (env pe : Env) (n : PTree) : coreFieldDef3 env pe n = coreFieldDefG (coreTypeOf false) false [] env pe n := by
-  unfold coreFieldDef3 coreFieldDefG coreTypeOf
-  simp only [coreInitL_false, Bool.false_and, Bool.false_eq_true, if_false]
+theorem coreFieldDef3_eq (env pe : Env) (n : PTree) : coreFieldDef3 env pe n = coreFieldDefG (coreTypeOf false) false noInitX [] env pe n := by
+  unfold coreFieldDef3 coreFieldDefG coreTypeOf noInitX
+  simp only [coreInitL_false, Bool.false_and, Bool.false_eq_true, if_false, Bool.or_false]
   cases Ast.fieldDefName n <;> cases Ast.fieldDefType n <;> try rfl
   rename_i nameNode tn
   simp only
@@ -1168,21 +1340,22 @@ theorem coreFieldDef3_eq (env pe : Env) (n : PTree) : coreFieldDef3 env pe n = c
 /-- what the step lemmas need of a type checker `tyOf`: the type node is indexed to that type, nothing is reported,
 the invariant is kept -/
 def TyOracle (k : Nat) (tyOf : PTree → Option Ty) (cenv : CEnv) (N : Std.HashMap String Nat) (rid : Nat) (ps : Params)
-    (gv : Env) (outer : List Scope) (xt : XTab) : Prop :=
-  ∀ (tn : PTree) (ty : Ty) (bv env : Env) (c : IndexCtx), PInv cenv N rid ps bv gv outer xt env c → tyOf tn = some ty →
+    (gv : Env) (outer : List Scope) (xt : XTab) (dt : DTabs) : Prop :=
+  ∀ (tn : PTree) (ty : Ty) (bv env : Env) (c : IndexCtx), PInv cenv N rid ps bv gv outer xt dt env c → tyOf tn = some ty →
     isCoreTy ty = true ∧ ∃ c0, ((mkRec (k + 1)).typ tn).run c = .ok (some ty, c0) ∧ c0.diagnostics = c.diagnostics ∧
-      PInv cenv N rid ps bv gv outer xt env c0
+      PInv cenv N rid ps bv gv outer xt dt env c0
 
 theorem coreTypeOf_oracle (lists : Bool) (hk : lists = true → 0 < k) (cenv : CEnv) (N : Std.HashMap String Nat) (rid : Nat)
-    (ps : Params) (gv : Env) (outer : List Scope) (xt : XTab) :
-    TyOracle k (coreTypeOf lists) cenv N rid ps gv outer xt :=
+    (ps : Params) (gv : Env) (outer : List Scope) (xt : XTab) (dt : DTabs) :
+    TyOracle k (coreTypeOf lists) cenv N rid ps gv outer xt dt :=
   fun tn ty _ _ c hinv h => ⟨coreTypeOf_core lists tn ty h, c, coreTypeOf_run k lists hk tn ty h c, rfl, hinv⟩
 
-theorem fieldDefG_step (tyOf : PTree → Option Ty) (lists : Bool) (hk : lists = true → 0 < k) (cenv : CEnv) (N : Std.HashMap String Nat) (n : PTree) (rid : Nat) (ps : Params) (bv gv : Env) (outer : List Scope) (xt : XTab) (env env' : Env) (c c' : IndexCtx)
-    (hinv : PInv cenv N rid ps bv gv outer xt env c) (htyO : TyOracle k tyOf cenv N rid ps gv outer xt)
-    (hchk : coreFieldDefG tyOf lists bv env (ps.env ++ gv) n = some env')
+theorem fieldDefG_step (tyOf : PTree → Option Ty) (lists : Bool) (hk : lists = true → 0 < k) (initX : Env → Ty → PTree → Bool) (cenv : CEnv) (N : Std.HashMap String Nat) (n : PTree) (rid : Nat) (ps : Params) (bv gv : Env) (outer : List Scope) (xt : XTab) (dt : DTabs) (env env' : Env) (c c' : IndexCtx)
+    (hinv : PInv cenv N rid ps bv gv outer xt dt env c) (htyO : TyOracle k tyOf cenv N rid ps gv outer xt dt)
+    (hX : InitOracle k initX cenv N rid ps gv outer xt dt)
+    (hchk : coreFieldDefG tyOf lists initX bv env (ps.env ++ gv) n = some env')
     (hrun : (indexFieldDef (mkRec (k + 1)) n).run c = .ok ((), c')) :
-    c'.diagnostics = c.diagnostics ∧ PInv cenv N rid ps bv gv outer xt env' c' := by
+    c'.diagnostics = c.diagnostics ∧ PInv cenv N rid ps bv gv outer xt dt env' c' := by
   obtain ⟨f, rest, hft⟩ : ∃ f rest, c.fileTrace = f :: rest := by
     cases hc : c.fileTrace with
     | nil => exact absurd hc hinv.trace
@@ -1225,10 +1398,17 @@ theorem fieldDefG_step (tyOf : PTree → Option Ty) (lists : Bool) (hk : lists =
     | some v =>
       rw [hv] at hrun hchk
       simp only at hrun hchk
-      by_cases hci : coreInitL lists (bv ++ (((name, ty) :: env) ++ (ps.env ++ gv))) ty v = true
+      by_cases hci : (coreInitL lists (bv ++ (((name, ty) :: env) ++ (ps.env ++ gv))) ty v ||
+          initX (bv ++ (((name, ty) :: env) ++ (ps.env ++ gv))) ty v) = true
       · simp only [hci, if_true] at hchk
         cases hchk
-        obtain ⟨vt, c1, hvr, hcast, hd, hi⟩ := initL_value k lists hk cenv N rid ps bv gv outer xt _ ty v _ hinv2 hci
+        obtain ⟨vt, c1, hvr, hcast, hd, hi⟩ : ∃ vt c1, ((mkRec (k + 1)).value v).run _ = .ok (some vt, c1) ∧
+            c1.symbolMap.canBeCastedTo vt ty = true ∧ c1.diagnostics = _ ∧
+            PInv cenv N rid ps bv gv outer xt dt ((name, ty) :: env) c1 := by
+          rcases Bool.or_eq_true_iff.1 hci with h1 | h2
+          · obtain ⟨vt, c1, a1, a2, a3, a4⟩ := initL_value k lists hk cenv N rid ps bv gv outer xt dt _ ty v _ hinv2 h1
+            exact ⟨vt, c1, a1, a2 _, a3, a4⟩
+          · exact hX ty v bv _ _ hinv2 h2
         simp only [StateT.run_bind, hvr, Except.ok_bind, canBeCastedTo_run, hcast, Bool.not_true, Bool.false_eq_true,
           if_false] at hrun
         cases hrun
@@ -1247,12 +1427,12 @@ def coreItems3 (pe : Env) : Env → List PTree → Option Env
     else if it.kind == .FieldLet && coreFieldLet3 env pe it then coreItems3 pe env rest
     else none
 
-theorem items3_step (cenv : CEnv) (N : Std.HashMap String Nat) (items : List PTree) (rid : Nat) (ps : Params) (outer : List Scope) (xt : XTab) (env env' : Env) (c c' : IndexCtx)
-    (u : PUnit) (hinv : PInv cenv N rid ps [] [] outer xt env c) (hchk : coreItems3 ps.env env items = some env')
+theorem items3_step (cenv : CEnv) (N : Std.HashMap String Nat) (items : List PTree) (rid : Nat) (ps : Params) (outer : List Scope) (xt : XTab) (dt : DTabs) (env env' : Env) (c c' : IndexCtx)
+    (u : PUnit) (hinv : PInv cenv N rid ps [] [] outer xt dt env c) (hchk : coreItems3 ps.env env items = some env')
     (hrun : (forIn items PUnit.unit fun item _ => do
         indexBodyItem (mkRec (k + 1)) item
         pure (ForInStep.yield PUnit.unit)).run c = .ok (u, c')) :
-    c'.diagnostics = c.diagnostics ∧ PInv cenv N rid ps [] [] outer xt env' c' := by
+    c'.diagnostics = c.diagnostics ∧ PInv cenv N rid ps [] [] outer xt dt env' c' := by
   induction items generalizing env c with
   | nil =>
     simp only [List.forIn_nil, StateT.run_pure] at hrun
@@ -1274,8 +1454,8 @@ theorem items3_step (cenv : CEnv) (N : Std.HashMap String Nat) (items : List PTr
           unfold indexBodyItem at j1
           simp only [hkind] at j1
           exact j1
-        obtain ⟨hd1, hinv1⟩ := fieldDefG_step k (coreTypeOf false) false (fun h => nomatch h) cenv N it rid ps [] [] outer xt env env1 c c1 hinv
-          (coreTypeOf_oracle k false (fun h => nomatch h) cenv N rid ps [] outer xt)
+        obtain ⟨hd1, hinv1⟩ := fieldDefG_step k (coreTypeOf false) false (fun h => nomatch h) noInitX cenv N it rid ps [] [] outer xt dt env env1 c c1 hinv
+          (coreTypeOf_oracle k false (fun h => nomatch h) cenv N rid ps [] outer xt dt) (noInitX_oracle k cenv N rid ps [] outer xt dt)
           (by rw [List.append_nil, ← coreFieldDef3_eq]; exact hfd) j1'
         obtain ⟨hd2, r⟩ := ih env1 c1 hinv1 hchk hrun
         exact ⟨hd2.trans hd1, r⟩
@@ -1288,7 +1468,8 @@ theorem items3_step (cenv : CEnv) (N : Std.HashMap String Nat) (items : List PTr
           unfold indexBodyItem at j1
           simp only [hl.1] at j1
           exact j1
-        obtain ⟨hd1, hinv1⟩ := fieldLetG_step k false (fun h => nomatch h) cenv N it rid ps [] [] outer xt env c c1 hinv
+        obtain ⟨hd1, hinv1⟩ := fieldLetG_step k false (fun h => nomatch h) noInitX cenv N it rid ps [] [] outer xt dt env c c1 hinv
+          (noInitX_oracle k cenv N rid ps [] outer xt dt)
           (by rw [List.append_nil, ← coreFieldLet3_eq]; exact hl.2) j1'
         obtain ⟨hd2, r⟩ := ih env c1 hinv1 hchk hrun
         exact ⟨hd2.trans hd1, r⟩
@@ -1307,10 +1488,10 @@ def coreRecordBody3 (cenv : CEnv) (rb : PTree) : Option Env :=
       | some b => coreItems3 [] env (Ast.bodyItems b)
     | none => none
 
-theorem recordBody3_step (cenv : CEnv) (N : Std.HashMap String Nat) (rb : PTree) (rid : Nat) (outer : List Scope) (xt : XTab) (env' : Env) (c c' : IndexCtx)
-    (hinv : PInv cenv N rid [] [] [] outer xt [] c) (hchk : coreRecordBody3 cenv rb = some env')
+theorem recordBody3_step (cenv : CEnv) (N : Std.HashMap String Nat) (rb : PTree) (rid : Nat) (outer : List Scope) (xt : XTab) (dt : DTabs) (env' : Env) (c c' : IndexCtx)
+    (hinv : PInv cenv N rid [] [] [] outer xt dt [] c) (hchk : coreRecordBody3 cenv rb = some env')
     (hrun : (indexRecordBody (mkRec (k + 1)) rb).run c = .ok ((), c')) :
-    c'.diagnostics = c.diagnostics ∧ PInv cenv N rid [] [] [] outer xt env' c' := by
+    c'.diagnostics = c.diagnostics ∧ PInv cenv N rid [] [] [] outer xt dt env' c' := by
   unfold coreRecordBody3 at hchk
   unfold indexRecordBody at hrun
   cases hp : Ast.recordBodyParentClassList rb with
@@ -1324,7 +1505,7 @@ theorem recordBody3_step (cenv : CEnv) (N : Std.HashMap String Nat) (rb : PTree)
       rw [hps] at hchk
       simp only at hchk
       obtain ⟨_, c1, h1, hrun⟩ := IxM.run_bind_ok hrun
-      obtain ⟨hd1, hinv1⟩ := parents3_step k cenv N pcl rid [] [] [] outer xt [] env c c1 hinv hps h1
+      obtain ⟨hd1, hinv1⟩ := parents3_step k cenv N pcl rid [] [] [] outer xt dt [] env c c1 hinv hps h1
       cases hb : Ast.recordBodyBody rb with
       | none => rw [hb] at hrun hchk; cases hrun; cases hchk; exact ⟨hd1, hinv1⟩
       | some b =>
@@ -1334,7 +1515,7 @@ theorem recordBody3_step (cenv : CEnv) (N : Std.HashMap String Nat) (rb : PTree)
         obtain ⟨u, c2, h2, h3⟩ := IxM.run_bind_ok hrun
         simp only [StateT.run_pure] at h3
         cases h3
-        obtain ⟨hd2, hinv2⟩ := items3_step k cenv N _ rid [] outer xt env env' c1 c' u hinv1 hchk h2
+        obtain ⟨hd2, hinv2⟩ := items3_step k cenv N _ rid [] outer xt dt env env' c1 c' u hinv1 hchk h2
         exact ⟨hd2.trans hd1, hinv2⟩
 
 
@@ -1369,6 +1550,23 @@ theorem same_nextAnonymousDefName : Keeps SameTab nextAnonymousDefName :=
   Keeps.modifyGet _ fun _ => ⟨rfl, rfl, rfl, rfl, rfl, rfl, rfl, rfl⟩
 theorem same_defsetMut (id : Nat) (g : Defset → Defset) : Keeps SameTab (defsetMut id g) :=
   Keeps.modifyGet _ fun _ => ⟨rfl, rfl, rfl, rfl, rfl, rfl, rfl, rfl⟩
+/-- the names of the defs are kept -/
+def SameDefs (c c' : IndexCtx) : Prop := c'.symbolMap.nameToDef = c.symbolMap.nameToDef
+
+instance : KeepRel SameDefs where
+  refl := fun _ => rfl
+  trans := fun h1 h2 => h2.trans h1
+
+theorem defs_sameFileDefset : Keeps SameDefs sameFileDefset := by
+  unfold sameFileDefset currentDefsetId withSM
+  keeps
+theorem defs_indexNameValue (v : PTree) : Keeps SameDefs (indexNameValue v) := by
+  unfold indexNameValue utilsIdentifier
+  keeps
+theorem defs_currentMulticlassId : Keeps SameDefs currentMulticlassId := by unfold currentMulticlassId; keeps
+theorem defs_nextAnonymousDefName : Keeps SameDefs nextAnonymousDefName :=
+  Keeps.modifyGet _ fun _ => rfl
+
 /-- `scopes.pop()` touches nothing but the scope stack -/
 theorem scopesPop_eqs {c c' : IndexCtx} {a : Unit} (h : scopesPop.run c = .ok (a, c')) :
     c'.diagnostics = c.diagnostics ∧ c'.fileTrace = c.fileTrace ∧ c'.symbolMap = c.symbolMap ∧
@@ -1466,17 +1664,72 @@ theorem CEnv.get_cons (cenv : CEnv) (name : String) (e : Option (Params × Env))
   · have : (name == cname) = false := by simpa using fun e => h e.symm
     simp [h, this]
 
+theorem addRecord_nameToDef (sm : SymMap) (r : Record) (g : Bool) :
+    (sm.addRecord r g).2.nameToDef =
+      (match r.kind with
+      | .cls => sm.nameToDef
+      | .def_ => sm.nameToDef.insert r.name sm.recordList.size) := by
+  unfold SymMap.addRecord
+  simp only
+  cases r.kind <;> cases g <;> simp [SymMap.logDefine]
+
+theorem addMulticlassDef_nameToDef (sm : SymMap) (r : Record) : (sm.addMulticlassDef r).2.nameToDef = sm.nameToDef := by
+  simp [SymMap.addMulticlassDef, SymMap.logDefine]
+
+theorem addAnonymousDef_nameToDef (sm : SymMap) (r : Record) : (sm.addAnonymousDef r).2.nameToDef = sm.nameToDef := by
+  simp [SymMap.addAnonymousDef, SymMap.logDefine]
+
+/-- the tables when a new record `r` (without parents) has been allocated: the table of its body -/
+theorem DInv.opened {dt : DTabs} {sm sm' : SymMap} (h : DInv dt sm.recordList.size sm)
+    (ho : OlderBelow sm sm.recordList.size) (r : Record) (hrecs : sm'.recordList = sm.recordList.push r)
+    (hr : r.parentList = #[]) (defs' : XTab)
+    (hdefs : ∀ name id, defs'.get name = some id →
+      (dt.defs.get name = some id ∧ sm'.nameToDef[name]? = sm.nameToDef[name]?) ∨
+      (id = sm.recordList.size ∧ sm'.nameToDef[name]? = some id ∧ r.kind = .def_)) :
+    DInv { defs := defs', anc := dt.anc, own := [] } sm.recordList.size sm' := by
+  have hag : ∀ i, i < sm.recordList.size → sm'.record i = sm.record i := by
+    intro i hi
+    unfold SymMap.record
+    rw [hrecs]
+    exact sGetElem!_push_lt _ _ _ hi
+  have hnew : sm'.record sm.recordList.size = r := by
+    unfold SymMap.record
+    rw [hrecs]
+    exact getElem!_push_size _ _
+  refine ⟨fun name id hg => ?_, fun i as hg => ?_, fun a ha => by cases ha⟩
+  · rcases hdefs name id hg with ⟨h1, h2⟩ | ⟨h1, h2, h3⟩
+    · obtain ⟨e1, e2, e3⟩ := h.names name id h1
+      have hlt : id < sm.recordList.size ∨ id = sm.recordList.size := by omega
+      rcases hlt with hlt | hlt
+      · exact ⟨h2.trans e1, e2, by rw [hag id hlt]; exact e3⟩
+      · -- an id that is not allocated yet cannot be registered with a record kind read from the default record
+        refine ⟨h2.trans e1, e2, ?_⟩
+        subst hlt
+        have : sm.record sm.recordList.size = default := by
+          unfold SymMap.record
+          simp [getElem!_def]
+        rw [this] at e3
+        cases e3
+    · subst h1
+      exact ⟨h2, Nat.le_refl _, by rw [hnew]; exact h3⟩
+  · obtain ⟨h1, h2⟩ := h.ancs i as hg
+    refine ⟨h1, fun a ha => ?_⟩
+    unfold SubFact
+    rw [isSubclassOfGo_agree sm sm' a sm.recordList.size ho (fun j hj => by rw [hag j hj]) (i + 1) i h1]
+    exact h2 a ha
+
 /-- the state in which a record body is indexed: a new empty record `r` with the scope `Record(id)` on top -/
 theorem PInv.ofOpen {cenv cenv' : CEnv} {c3 c5 c6 : IndexCtx} (hT : TabInv cenv c3) {gv : Env}
     (houter : OuterOK c3.symbolMap c3.scopes.scopes gv) {xt xt' : XTab} (hx3 : XInv xt c3.symbolMap.recordList.size c3.symbolMap)
     (hx : ∀ nm id, xt'.get nm = some id → xt.get nm = some id ∧
-      c5.symbolMap.nameToClass[nm]? = c3.symbolMap.nameToClass[nm]?) (r : Record)
+      c5.symbolMap.nameToClass[nm]? = c3.symbolMap.nameToClass[nm]?) {dtB : DTabs}
+    (hdB : DInv dtB c3.symbolMap.recordList.size c5.symbolMap) (r : Record)
     (hr1 : r.parentList = #[]) (hr2 : r.nameToRecordField = #[]) (hr3 : r.nameToTemplateArg = #[])
     (ho : OpenedRec r c3 c5)
     (hcls : ∀ cname e, cenv'.get cname = some e →
       cenv.get cname = some e ∧ c5.symbolMap.nameToClass[cname]? = c3.symbolMap.nameToClass[cname]?)
     (h6 : (scopesPush (.record c3.symbolMap.recordList.size)).run c5 = .ok ((), c6)) :
-    c6.diagnostics = c3.diagnostics ∧ PInv cenv' c5.symbolMap.nameToClass c3.symbolMap.recordList.size [] [] gv c3.scopes.scopes xt' [] c6 := by
+    c6.diagnostics = c3.diagnostics ∧ PInv cenv' c5.symbolMap.nameToClass c3.symbolMap.recordList.size [] [] gv c3.scopes.scopes xt' dtB [] c6 := by
   unfold scopesPush at h6
   rw [IxM.run_modify] at h6
   cases h6
@@ -1503,7 +1756,7 @@ theorem PInv.ofOpen {cenv cenv' : CEnv} {c3 c5 c6 : IndexCtx} (hT : TabInv cenv 
     · rw [hag i (by omega)] at hp
       exact hT.k.older i (by omega) p hp
   have hoB : OlderBelow c3.symbolMap c3.symbolMap.recordList.size := hT.k.older
-  refine ⟨ho.diag, ⟨⟨hold, by show _ ≤ c5.symbolMap.recordList.size; omega, ?_⟩, ?_, hsz.symm, ?_, ?_, ?_, rfl, ?_⟩⟩
+  refine ⟨ho.diag, ⟨⟨hold, by show _ ≤ c5.symbolMap.recordList.size; omega, ?_⟩, ?_, hsz.symm, ?_, ?_, ?_, rfl, ?_, hdB⟩⟩
   · intro cname ps flds hg
     obtain ⟨h1, h2⟩ := hcls cname _ hg
     obtain ⟨cid, e1, e2, e3, e4⟩ := hT.k.classes cname ps flds h1
@@ -1529,16 +1782,38 @@ theorem PInv.ofOpen {cenv cenv' : CEnv} {c3 c5 c6 : IndexCtx} (hT : TabInv cenv 
 
 /-- after the `pop` that ends a record body the scope stack is the outer one -/
 theorem PInv.popped {cenv : CEnv} {N : Std.HashMap String Nat} {rid : Nat} {ps : Params} {bv gv : Env} {outer : List Scope}
-    {env : Env} {c4 c5 : IndexCtx} (h : PInv cenv N rid ps bv gv outer xt env c4) (hpop : scopesPop.run c4 = .ok ((), c5)) :
+    {env : Env} {c4 c5 : IndexCtx} (h : PInv cenv N rid ps bv gv outer xt dt env c4) (hpop : scopesPop.run c4 = .ok ((), c5)) :
     c5.scopes.scopes = outer := by
   obtain ⟨x, hx⟩ := (scopesPop_eqs hpop).2.2.2
   obtain ⟨sc, hs, _⟩ := h.top
   rw [hs] at hx
   exact (List.cons.inj hx).2.symm
 
+/-- the tables after a record body: the ancestors collected for the record are filed under its id -/
+def closeTab (dt : DTabs) (rid : Nat) : DTabs := { defs := dt.defs, anc := (rid, dt.own) :: dt.anc, own := [] }
+
+theorem PInv.closeD {cenv : CEnv} {N : Std.HashMap String Nat} {rid : Nat} {ps : Params} {bv gv : Env} {outer : List Scope}
+    {xt : XTab} {dt : DTabs} {env : Env} {c4 c5 : IndexCtx} (h : PInv cenv N rid ps bv gv outer xt dt env c4)
+    (hsm : c5.symbolMap = c4.symbolMap) : DInv (closeTab dt rid) c5.symbolMap.recordList.size c5.symbolMap := by
+  rw [hsm, ← h.newest]
+  refine ⟨fun name id hg => ?_, fun i as hg => ?_, fun a ha => by cases ha⟩
+  · obtain ⟨e1, e2, e3⟩ := h.d.names name id hg
+    exact ⟨e1, by omega, e3⟩
+  · unfold closeTab ancGet at hg
+    simp only [List.find?_cons] at hg
+    by_cases hi : (rid == i) = true
+    · simp only [hi] at hg
+      cases hg
+      have : rid = i := by simpa using hi
+      subst this
+      exact ⟨Nat.lt_succ_self _, h.d.own⟩
+    · simp only [hi] at hg
+      obtain ⟨e1, e2⟩ := h.d.ancs i as hg
+      exact ⟨by omega, e2⟩
+
 /-- the record ids after a record body: the table of the body, possibly extended by the record itself -/
 theorem PInv.closeX {cenv : CEnv} {N : Std.HashMap String Nat} {rid : Nat} {ps : Params} {bv gv : Env} {outer : List Scope}
-    {xt xtOut : XTab} {env : Env} {c4 c5 : IndexCtx} (h : PInv cenv N rid ps bv gv outer xt env c4)
+    {xt xtOut : XTab} {env : Env} {c4 c5 : IndexCtx} (h : PInv cenv N rid ps bv gv outer xt dt env c4)
     (hout : ∀ nm id, xtOut.get nm = some id → xt.get nm = some id ∨ (N[nm]? = some rid ∧ id = rid))
     (hsm : c5.symbolMap = c4.symbolMap) : XInv xtOut c5.symbolMap.recordList.size c5.symbolMap := by
   intro nm id hg
@@ -1549,8 +1824,8 @@ theorem PInv.closeX {cenv : CEnv} {N : Std.HashMap String Nat} {rid : Nat} {ps :
     exact ⟨by rw [h.ntc]; exact h1, by have := h.newest; omega⟩
 
 /-- the class table after a record body -/
-theorem PInv.close {cenv' cenvOut : CEnv} {N : Std.HashMap String Nat} {rid : Nat} {ps : Params} {bv gv : Env} {outer : List Scope} {xt : XTab} {env : Env} {c4 c5 : IndexCtx}
-    (h : PInv cenv' N rid ps bv gv outer xt env c4)
+theorem PInv.close {cenv' cenvOut : CEnv} {N : Std.HashMap String Nat} {rid : Nat} {ps : Params} {bv gv : Env} {outer : List Scope} {xt : XTab} {dt : DTabs} {env : Env} {c4 c5 : IndexCtx}
+    (h : PInv cenv' N rid ps bv gv outer xt dt env c4)
     (hout : ∀ cname e, cenvOut.get cname = some e →
       cenv'.get cname = some e ∨ (N[cname]? = some rid ∧ e = (ps, env)))
     (hsm : c5.symbolMap = c4.symbolMap) (htr : c5.fileTrace = c4.fileTrace) : TabInv cenvOut c5 := by
@@ -1643,7 +1918,7 @@ theorem indexClass3_step (cenv cenv' : CEnv) (n : PTree) (c c' : IndexCtx) (hT :
         have : (name == cname) = false := by simpa using fun e' => e e'.symm
         simp [this]
     obtain ⟨q3, hinv3⟩ := PInv.ofOpen (cenv' := (name, none) :: cenv) hT (OuterOK.nil _ _) (xt := []) (xt' := []) (XInv.nil _ _)
-      (fun _ _ h => by simp [XTab.get] at h) _ rfl rfl rfl ho hcls h3
+      (fun _ _ h => by simp [XTab.get] at h) (dtB := {}) (DInv.nil _ _) _ rfl rfl rfl ho hcls h3
     have hN : (c.setSM (c.symbolMap.addRecord { name := name, kind := .cls, defineLoc := ⟨f, se.1, se.2⟩ } true).2).symbolMap.nameToClass[name]? =
         some c.symbolMap.recordList.size := by
       simp only [IndexCtx.setSM_symbolMap, t4]
@@ -1651,7 +1926,7 @@ theorem indexClass3_step (cenv cenv' : CEnv) (n : PTree) (c c' : IndexCtx) (hT :
     have hclose : ∀ (env : Env) (c4 : IndexCtx), c4.diagnostics = c.diagnostics →
         PInv ((name, none) :: cenv)
           (c.setSM (c.symbolMap.addRecord { name := name, kind := .cls, defineLoc := ⟨f, se.1, se.2⟩ } true).2).symbolMap.nameToClass
-          c.symbolMap.recordList.size [] [] [] c.scopes.scopes [] env c4 →
+          c.symbolMap.recordList.size [] [] [] c.scopes.scopes [] {} env c4 →
         scopesPop.run c4 = .ok ((), c') → c'.diagnostics = c.diagnostics ∧ TabInv ((name, some ([], env)) :: cenv) c' := by
       intro env c4 q4 hinv4 h5
       have s5 := scopesPop_eqs h5
@@ -1679,7 +1954,7 @@ theorem indexClass3_step (cenv cenv' : CEnv) (n : PTree) (c c' : IndexCtx) (hT :
         rw [hrb] at hchk
         cases hchk
         obtain ⟨_, c4, h4, hrun⟩ := IxM.run_bind_ok hrun
-        obtain ⟨q4, hinv4⟩ := recordBody3_step k _ _ rb _ _ _ env c3 c4 hinv3 hrb h4
+        obtain ⟨q4, hinv4⟩ := recordBody3_step k _ _ rb _ _ _ _ env c3 c4 hinv3 hrb h4
         exact hclose env c4 (q4.trans q3) hinv4 hrun
   · simp only [hta, Bool.false_eq_true, if_false] at hchk
     cases hchk
@@ -1691,29 +1966,56 @@ def coreDef3 (cenv : CEnv) (n : PTree) : Bool :=
   | none => true
   | some rb => (coreRecordBody3 cenv rb).isSome
 
+/-- what `indexDef` got for the name of the def -/
+def NamedRun (n : PTree) (named : Option (String × FileRange)) : Prop :=
+  (∃ nv ca cb, Ast.defName n = some nv ∧ (indexNameValue nv).run ca = .ok (named, cb)) ∨
+  (Ast.defName n = none ∧ named = none)
+
+/-- what `indexDef` did to `nameToDef` when it allocated the record `r` -/
+def DefBranch (n : PTree) (c : IndexCtx) (r : Record) (c3 c5 : IndexCtx) : Prop :=
+  ∃ named, NamedRun n named ∧ c3.symbolMap.nameToDef = c.symbolMap.nameToDef ∧
+    ((c.scopes.currentMulticlassId.isSome = true ∧ c5.symbolMap.nameToDef = c3.symbolMap.nameToDef) ∨
+     (∃ loc, named = some (r.name, loc) ∧
+        c5.symbolMap.nameToDef = c3.symbolMap.nameToDef.insert r.name c3.symbolMap.recordList.size) ∨
+     (named = none ∧ c5.symbolMap.nameToDef = c3.symbolMap.nameToDef))
+
+/-- the ancestors filed for the def -/
+def defOwn (ownFn : PTree → List Nat) (n : PTree) : List Nat :=
+  match Ast.defRecordBody n with
+  | some rb => ownFn rb
+  | none => []
+
 /-- `def`, for any checker `chk` of record bodies that is sound in the state right after the record was opened -/
-theorem indexDefG_step (cenv : CEnv) (chk : PTree → Option Env) (gv : Env) (xt : XTab)
+theorem indexDefG_step (cenv : CEnv) (chk : PTree → Option Env) (gv : Env) (xt : XTab) (dtB : DTabs) (ownFn : PTree → List Nat)
+    (sc0 : List Scope)
     (hbody : ∀ (rb : PTree) (env : Env) (N : Std.HashMap String Nat) (rid : Nat) (outer : List Scope) (c6 c7 : IndexCtx),
-      PInv cenv N rid [] [] gv outer xt [] c6 → chk rb = some env → (indexRecordBody (mkRec (k + 1)) rb).run c6 = .ok ((), c7) →
-      c7.diagnostics = c6.diagnostics ∧ ∃ bv, PInv cenv N rid [] bv gv outer xt env c7)
+      outer = sc0 → PInv cenv N rid [] [] gv outer xt dtB [] c6 → chk rb = some env → (indexRecordBody (mkRec (k + 1)) rb).run c6 = .ok ((), c7) →
+      c7.diagnostics = c6.diagnostics ∧ ∃ bv, PInv cenv N rid [] bv gv outer xt { dtB with own := ownFn rb } env c7)
     (n : PTree) (c c' : IndexCtx) (hT : TabInv cenv c) (houter : OuterOK c.symbolMap c.scopes.scopes gv)
-    (hxt : XInv xt c.symbolMap.recordList.size c.symbolMap)
+    (hsc : c.scopes.scopes = sc0)
+    (hxt : XInv xt c.symbolMap.recordList.size c.symbolMap) (hown : dtB.own = [])
+    (hopen : ∀ (r : Record) (c3 c5 : IndexCtx), SameTab c c3 → OpenedRec r c3 c5 → r.kind = .def_ → r.parentList = #[] →
+      DefBranch n c r c3 c5 → DInv dtB c3.symbolMap.recordList.size c5.symbolMap)
     (hchk : ∀ rb, Ast.defRecordBody n = some rb → (chk rb).isSome = true)
     (hrun : (indexDef (mkRec (k + 1)) n).run c = .ok ((), c')) :
     c'.diagnostics = c.diagnostics ∧ TabInv cenv c' ∧
       ((Ast.defRecordBody n).isSome = true → c'.scopes.scopes = c.scopes.scopes) ∧
       XInv xt c'.symbolMap.recordList.size c'.symbolMap ∧
-      c'.symbolMap.recordList.size = c.symbolMap.recordList.size + 1 := by
+      c'.symbolMap.recordList.size = c.symbolMap.recordList.size + 1 ∧
+      DInv (closeTab { dtB with own := defOwn ownFn n } c.symbolMap.recordList.size) c'.symbolMap.recordList.size c'.symbolMap := by
   have hfin : ∀ (r : Record) (c3 c5 c6 : IndexCtx), SameTab c c3 → r.parentList = #[] → r.nameToRecordField = #[] →
       r.nameToTemplateArg = #[] → OpenedRec r c3 c5 → c5.symbolMap.nameToClass = c3.symbolMap.nameToClass →
+      DInv dtB c3.symbolMap.recordList.size c5.symbolMap →
       (scopesPush (.record c3.symbolMap.recordList.size)).run c5 = .ok ((), c6) →
       (∀ rb, Ast.defRecordBody n = some rb → ∃ c7, (indexRecordBody (mkRec (k + 1)) rb).run c6 = .ok ((), c7) ∧
         scopesPop.run c7 = .ok ((), c')) →
       (Ast.defRecordBody n = none → c' = c6) → c'.diagnostics = c.diagnostics ∧ TabInv cenv c' ∧
         ((Ast.defRecordBody n).isSome = true → c'.scopes.scopes = c.scopes.scopes) ∧
         XInv xt c'.symbolMap.recordList.size c'.symbolMap ∧
-        c'.symbolMap.recordList.size = c.symbolMap.recordList.size + 1 := by
-    intro r c3 c5 c6 p3 hr1 hr2 hr3 ho hntc h6 hsome hnone
+        c'.symbolMap.recordList.size = c.symbolMap.recordList.size + 1 ∧
+        DInv (closeTab { dtB with own := defOwn ownFn n } c.symbolMap.recordList.size) c'.symbolMap.recordList.size
+          c'.symbolMap := by
+    intro r c3 c5 c6 p3 hr1 hr2 hr3 ho hntc hdB h6 hsome hnone
     have houter3 : OuterOK c3.symbolMap c3.scopes.scopes gv := by
       rw [p3.2.2.2.2.2.2.2]
       exact houter.mono (fun i x hx => by rw [p3.2.2.2.2.2.2.1]; exact hx)
@@ -1721,26 +2023,34 @@ theorem indexDefG_step (cenv : CEnv) (chk : PTree → Option Env) (gv : Env) (xt
       hxt.mono (by rw [p3.2.2.1]; exact Nat.le_refl _) (fun _ _ _ => by rw [p3.2.2.2.2.1])
     have hsz3 : c3.symbolMap.recordList.size = c.symbolMap.recordList.size := by rw [p3.2.2.1]
     obtain ⟨q6, hinv6⟩ := PInv.ofOpen (cenv' := cenv) (hT.same p3) houter3 (xt := xt) (xt' := xt) hx3
-      (fun nm id hg => ⟨hg, by rw [hntc]⟩) r hr1 hr2 hr3 ho
+      (fun nm id hg => ⟨hg, by rw [hntc]⟩) hdB r hr1 hr2 hr3 ho
       (fun cname flds hg => ⟨hg, by rw [hntc]⟩) h6
     cases hb : Ast.defRecordBody n with
     | none =>
       rw [hnone hb]
+      have hcl := hinv6.closeD (c5 := c6) rfl
+      have e : ({ dtB with own := defOwn ownFn n } : DTabs) = dtB := by
+        unfold defOwn; rw [hb]; cases dtB; simp only at hown; subst hown; rfl
+      rw [e, ← hsz3]
       exact ⟨q6.trans p3.1, hinv6.close (fun _ _ hg => Or.inl hg) rfl rfl, (fun h => by cases h),
-        hinv6.closeX (fun _ _ hg => Or.inl hg) rfl, by rw [← hinv6.newest, hsz3]⟩
+        hinv6.closeX (fun _ _ hg => Or.inl hg) rfl, by rw [← hinv6.newest], hcl⟩
     | some rb =>
       have hchk' := hchk rb hb
       simp only [Option.isSome_iff_exists] at hchk'
       obtain ⟨env, hrb⟩ := hchk'
       obtain ⟨c7, h7, h8⟩ := hsome rb hb
-      obtain ⟨q7, bv7, hinv7⟩ := hbody rb env _ _ _ c6 c7 hinv6 hrb h7
+      obtain ⟨q7, bv7, hinv7⟩ := hbody rb env _ _ _ c6 c7 (by rw [p3.2.2.2.2.2.2.2]; exact hsc) hinv6 hrb h7
       have s8 := scopesPop_eqs h8
+      have hcl := hinv7.closeD s8.2.2.1
+      have e : defOwn ownFn n = ownFn rb := by unfold defOwn; rw [hb]
+      rw [e, ← hsz3]
       exact ⟨((s8.1.trans q7).trans q6).trans p3.1, hinv7.close (fun _ _ hg => Or.inl hg) s8.2.2.1 s8.2.1,
         (fun _ => by rw [hinv7.popped h8, p3.2.2.2.2.2.2.2]), hinv7.closeX (fun _ _ hg => Or.inl hg) s8.2.2.1,
-        by rw [s8.2.2.1, ← hinv7.newest, hsz3]⟩
+        by rw [s8.2.2.1, ← hinv7.newest], hcl⟩
   unfold indexDef at hrun
   obtain ⟨ds, c1, h1, hrun⟩ := IxM.run_bind_ok hrun
   have p1 : SameTab c c1 := same_sameFileDefset.run _ _ _ h1
+  have q1 : SameDefs c c1 := defs_sameFileDefset.run _ _ _ h1
   dsimp only at hrun
   split at hrun
   all_goals
@@ -1750,10 +2060,22 @@ theorem indexDefG_step (cenv : CEnv) (chk : PTree → Option Env) (gv : Env) (xt
         | exact KeepRel.trans p1 ((same_indexNameValue _).run _ _ _ h2)
         | (have e : c2 = c1 := by cases h2; rfl
            rw [e]; exact p1)
+    have q2 : SameDefs c c2 := by
+      first
+        | exact KeepRel.trans q1 ((defs_indexNameValue _).run _ _ _ h2)
+        | (have e : c2 = c1 := by cases h2; rfl
+           rw [e]; exact q1)
+    have hnr : NamedRun n named := by
+      first
+        | exact Or.inl ⟨_, _, _, by assumption, h2⟩
+        | exact Or.inr ⟨by assumption, by cases h2; rfl⟩
     split at hrun
     · rename_i name loc
       obtain ⟨m, c3, h3, hrun⟩ := IxM.run_bind_ok hrun
       have p3 : SameTab c c3 := KeepRel.trans p2 (same_currentMulticlassId.run _ _ _ h3)
+      have q3 : c3.symbolMap.nameToDef = c.symbolMap.nameToDef :=
+        KeepRel.trans (R := SameDefs) q2 (defs_currentMulticlassId.run _ _ _ h3)
+      have hmcur : m = c2.scopes.currentMulticlassId := by cases h3; rfl
       split at hrun
       · obtain ⟨id, c4, h4, hrun⟩ := IxM.run_bind_ok hrun
         have h4' : (addMulticlassDef { name := name, kind := .def_, defineLoc := loc }).run c3 =
@@ -1769,7 +2091,8 @@ theorem indexDefG_step (cenv : CEnv) (chk : PTree → Option Env) (gv : Env) (xt
         · obtain ⟨_, c5, h5, hrun⟩ := IxM.run_bind_ok hrun
           have s5 := (same_defsetMut _ _).run _ _ _ h5
           obtain ⟨_, c6, h6, hrun⟩ := IxM.run_bind_ok hrun
-          refine hfin _ c3 c5 c6 p3 rfl rfl rfl (ho.same s5) (s5.2.2.2.2.1.trans t4) h6 ?_ ?_
+          refine hfin _ c3 c5 c6 p3 rfl rfl rfl (ho.same s5) (s5.2.2.2.2.1.trans t4)
+            (hopen _ c3 c5 p3 (ho.same s5) rfl rfl ⟨_, hnr, q3, Or.inl ⟨by rw [← p2.2.2.2.2.2.2.2, ← hmcur]; assumption, (((by cases h5; rfl) : _ = _).trans (addMulticlassDef_nameToDef _ _))⟩⟩) h6 ?_ ?_
           · intro rb hb
             rw [hb] at hrun
             simp only at hrun
@@ -1779,7 +2102,8 @@ theorem indexDefG_step (cenv : CEnv) (chk : PTree → Option Env) (gv : Env) (xt
             rw [hb] at hrun
             cases hrun; rfl
         · obtain ⟨_, c6, h6, hrun⟩ := IxM.run_bind_ok hrun
-          refine hfin _ c3 _ c6 p3 rfl rfl rfl ho t4 h6 ?_ ?_
+          refine hfin _ c3 _ c6 p3 rfl rfl rfl ho t4
+            (hopen _ c3 _ p3 ho rfl rfl ⟨_, hnr, q3, Or.inl ⟨by rw [← p2.2.2.2.2.2.2.2, ← hmcur]; assumption, ((rfl : _ = _).trans (addMulticlassDef_nameToDef _ _))⟩⟩) h6 ?_ ?_
           · intro rb hb
             rw [hb] at hrun
             simp only at hrun
@@ -1803,7 +2127,8 @@ theorem indexDefG_step (cenv : CEnv) (chk : PTree → Option Env) (gv : Env) (xt
         · obtain ⟨_, c5, h5, hrun⟩ := IxM.run_bind_ok hrun
           have s5 := (same_defsetMut _ _).run _ _ _ h5
           obtain ⟨_, c6, h6, hrun⟩ := IxM.run_bind_ok hrun
-          refine hfin _ c3 c5 c6 p3 rfl rfl rfl (ho.same s5) (s5.2.2.2.2.1.trans t4) h6 ?_ ?_
+          refine hfin _ c3 c5 c6 p3 rfl rfl rfl (ho.same s5) (s5.2.2.2.2.1.trans t4)
+            (hopen _ c3 c5 p3 (ho.same s5) rfl rfl ⟨_, hnr, q3, Or.inr (Or.inl ⟨loc, rfl, (((by cases h5; rfl) : _ = _).trans ((addRecord_nameToDef _ _ _).trans rfl))⟩)⟩) h6 ?_ ?_
           · intro rb hb
             rw [hb] at hrun
             simp only at hrun
@@ -1813,7 +2138,8 @@ theorem indexDefG_step (cenv : CEnv) (chk : PTree → Option Env) (gv : Env) (xt
             rw [hb] at hrun
             cases hrun; rfl
         · obtain ⟨_, c6, h6, hrun⟩ := IxM.run_bind_ok hrun
-          refine hfin _ c3 _ c6 p3 rfl rfl rfl ho t4 h6 ?_ ?_
+          refine hfin _ c3 _ c6 p3 rfl rfl rfl ho t4
+            (hopen _ c3 _ p3 ho rfl rfl ⟨_, hnr, q3, Or.inr (Or.inl ⟨loc, rfl, ((rfl : _ = _).trans ((addRecord_nameToDef _ _ _).trans rfl))⟩)⟩) h6 ?_ ?_
           · intro rb hb
             rw [hb] at hrun
             simp only at hrun
@@ -1826,6 +2152,9 @@ theorem indexDefG_step (cenv : CEnv) (chk : PTree → Option Env) (gv : Env) (xt
       have p2a : SameTab c c2a := KeepRel.trans p2 (same_nextAnonymousDefName.run _ _ _ h2a)
       obtain ⟨f, c3, h3, hrun⟩ := IxM.run_bind_ok hrun
       have p3 : SameTab c c3 := KeepRel.trans p2a ((currentFileId_keeps (R := SameTab)).run _ _ _ h3)
+      have q3 : c3.symbolMap.nameToDef = c.symbolMap.nameToDef :=
+        KeepRel.trans (R := SameDefs) (KeepRel.trans (R := SameDefs) q2 (defs_nextAnonymousDefName.run _ _ _ h2a))
+          ((currentFileId_keeps (R := SameDefs)).run _ _ _ h3)
       obtain ⟨id, c4, h4, hrun⟩ := IxM.run_bind_ok hrun
       have h4' : (addAnonymousDef { name := nm, kind := .def_, defineLoc := ⟨f, n.start, n.stop⟩ }).run c3 =
           .ok ((c3.symbolMap.addAnonymousDef { name := nm, kind := .def_, defineLoc := ⟨f, n.start, n.stop⟩ }).1,
@@ -1837,7 +2166,8 @@ theorem indexDefG_step (cenv : CEnv) (chk : PTree → Option Env) (gv : Env) (xt
           (c3.setSM (c3.symbolMap.addAnonymousDef { name := nm, kind := .def_, defineLoc := ⟨f, n.start, n.stop⟩ }).2) :=
         ⟨rfl, rfl, t2, t3, t5, addAnonymousDef_vars _ _, rfl⟩
       obtain ⟨_, c6, h6, hrun⟩ := IxM.run_bind_ok hrun
-      refine hfin _ c3 _ c6 p3 rfl rfl rfl ho t4 h6 ?_ ?_
+      refine hfin _ c3 _ c6 p3 rfl rfl rfl ho t4
+        (hopen _ c3 _ p3 ho rfl rfl ⟨_, hnr, q3, Or.inr (Or.inr ⟨rfl, ((rfl : _ = _).trans (addAnonymousDef_nameToDef _ _))⟩)⟩) h6 ?_ ?_
       · intro rb hb
         rw [hb] at hrun
         simp only at hrun
@@ -1853,10 +2183,11 @@ theorem indexDef3_step (cenv : CEnv) (n : PTree) (c c' : IndexCtx) (hT : TabInv 
       ((Ast.defRecordBody n).isSome = true → c'.scopes.scopes = c.scopes.scopes) ∧
       XInv [] c'.symbolMap.recordList.size c'.symbolMap ∧
       c'.symbolMap.recordList.size = c.symbolMap.recordList.size + 1 from ⟨h.1, h.2.1⟩
-  refine indexDefG_step k cenv (coreRecordBody3 cenv) [] []
-    (fun rb env N rid outer c6 c7 hinv hrb h7 =>
-      let ⟨q, hi⟩ := recordBody3_step k cenv N rb rid outer [] env c6 c7 hinv hrb h7
-      ⟨q, [], hi⟩) n c c' hT (OuterOK.nil _ _) (XInv.nil _ _) ?_ hrun
+  have h := indexDefG_step k cenv (coreRecordBody3 cenv) [] [] {} (fun _ => []) c.scopes.scopes
+    (fun rb env N rid outer c6 c7 _ hinv hrb h7 =>
+      let ⟨q, hi⟩ := recordBody3_step k cenv N rb rid outer [] {} env c6 c7 hinv hrb h7
+      ⟨q, [], hi⟩) n c c' hT (OuterOK.nil _ _) rfl (XInv.nil _ _) rfl (fun _ _ _ _ _ _ _ _ => DInv.nil _ _) ?_ hrun
+  · exact ⟨h.1, h.2.1, h.2.2.1, h.2.2.2.1, h.2.2.2.2.1⟩
   intro rb hb
   unfold coreDef3 at hchk
   rw [hb] at hchk
